@@ -14,7 +14,15 @@ PROP = dict(
          "first symbol / at the end} x {mode set by the configuration call, mode reached through the CapsLock / Shift-Space "
          "keys, with double toggles in mid-composition} = 760 character cells per phonetic layout, followed by the 15 keypad characters (NumLock events, verbatim in every mode) (quick: 16 sessions over "
          "rotating layouts; thorough: all 10 layouts), every step typed into the real editor and recomputed by the model from "
-         "the implementation's own pre-state. Sampled part (run editor): generated histories with toggles and option changes "
+         "the implementation's own pre-state. The same run continues with the crossing-phrase sessions (quick 8, thorough 48): the "
+         "script teaches overlapping phrases (AB + BC over A B C, or AB + ABC + CD over A B C D - only overlapping phrases give "
+         "alternatives that read differently), types the syllables, presses Tab 1..3 times at the end of the buffer and changes a "
+         "mode in every way (CapsLock in Entering / EnteringSyllable / Selecting / Highlighting, Shift-Space enabled / disabled, "
+         "set_editor_options flipping the language, the form, both, also in EnteringSyllable / Selecting / Highlighting; half of "
+         "them there and back), then types a shifted letter and commits with Enter = 36 scenarios per session; #stat "
+         "c18_mode_change.<kind>.<state>, c18_mode_changes_with_nth_nonzero[_reading_differently][.<kind>.<state>], "
+         "c18_mode_changes_display_strings_compared; the run fails if no mode change of a kind met a non-default alternative that "
+         "reads differently. Sampled part (run editor): generated histories with toggles and option changes "
          "at random points. distinct = distinct record text",
     trusted_base=["kernel evaluation (decide +kernel) of full_width_symbol_input over the 95 characters and the 95 x 95 pairs, "
                   "on tables regenerated from src/conversion/symbol.rs by the translator on every run",
@@ -27,7 +35,15 @@ PROP = dict(
                  "history (buffer_bounded_along) for every environment satisfying C01's EnvOK, from C01's reachable-state "
                  "invariant; in the other states the buffer may exceed the threshold until the state returns to Entering "
                  "(simple engine: a typed syllable opens its list first; fuzzy input inserts while phonetic keys are pending); the "
-                 "state-machine-step versions (eng_key_inserts_dispatch, capslock_dispatch) need no assumption at all",
+                 "state-machine-step versions (eng_key_inserts_dispatch, capslock_dispatch, capslock_dispatch_text) need no "
+                 "assumption at all, nor do capslock_keeps_nth / shiftspace_keeps_nth (the auto-commit leaves nth_conversion alone)",
+                 "toggle_keeps_display_partial: 'the text shown is as before' is derived from equality of (engine, dictionary, "
+                 "composition, nth_conversion), of which the model's display / conversion are functions; the dictionary is the "
+                 "same value, or - at the end of a KEY when a user-dictionary update was pending - the flushed one, for which the "
+                 "hypothesis FlushKeepsConvert (the engine answers the same after reopen + flush) is needed; excluded class of the "
+                 "full statement (toggle_keeps_display_refuted): a key toggle pressed while the buffer is over "
+                 "auto_commit_threshold - the key's auto-commit pushes the leading part out (the oracle checks 'suffix of the old "
+                 "buffer, nth unchanged' there)",
                  "Chinese mode: the theorems cover the toggles and the option frame; the character rule is evaluated by the "
                  "oracle for shifted letters (the branch shared with English mode)"],
 )
@@ -43,7 +59,17 @@ MANIFEST = dict(
          "cursor, cursor + 1, nothing else moves, nothing committed). Toggles: capslock_toggles_lang / capslock_dispatch in "
          "all four states (language mode flipped, no other option changed, symbols, gaps and selections exactly as before), "
          "shiftspace_toggles_form, shiftspace_disabled, form_fixed_outside_entering, options_change_only_by_toggle (no other "
-         "key in any state changes any of the 14 options), setOptions_preserves_buffer. Linked (round 2, Proofs/EditorLink.lean): "
+         "key in any state changes any of the 14 options), setOptions_preserves_buffer. The text SHOWN (round 2): a mode change "
+         "never touches the alternative chosen with Tab - SameText (composition, nth_conversion, engine, dictionary up to the "
+         "key's flush, cursor and saved cursors unless a candidate list is closed) holds across the CapsLock key in each of the "
+         "four states (capslock_dispatch_text with no premise, capslock_keeps_text), across the effective Shift-Space key "
+         "(shiftspace_keeps_text) and across set_editor_options + revalidate_selecting with ANY new options "
+         "(setOptions_keeps_text, setOptions_total); SameText.display: hence Editor::display and intervals() answer the same; "
+         "capslock_keeps_nth / shiftspace_keeps_nth: nth_conversion is untouched whatever the buffer length; in one piece "
+         "toggle_keeps_display_partial over the event type ModeChange, with the full statement toggle_keeps_display_full refuted "
+         "(toggle_keeps_display_refuted) exactly by a key toggle on a buffer over the limit (overEditor, reachable), and "
+         "non-vacuity on an environment with two alternatives that read differently (nthEditor: nth = 1 stays on display across "
+         "CapsLock, Shift-Space, the setter). Linked (round 2, Proofs/EditorLink.lean): "
          "bounded_after_key_linked (C05's bound with C01's invariant in place of the tiling premise, all four states), "
          "bounded_step / buffer_bounded_along / buffer_bounded_fresh (EditorInv + 'len <= auto_commit_threshold in Entering' is an "
          "invariant of every key history, which also runs to the end), and the whole-key theorems restated from it without a "
@@ -54,7 +80,13 @@ MANIFEST = dict(
          "tables; exhaustive typed sweep of all 760 character cells through the real editor with per-step model "
          "correspondence, plus the property evaluated directly on the real editor by an oracle written from the statement "
          "(one character, verbatim / wide and standard full-width for letters-digits-space, observed mapping injective, "
-         "option frame, text unaltered by toggles and configuration calls). F01 (a key without a full-width form aborted) "
+         "option frame; at EVERY mode change - CapsLock key in any state, effective Shift-Space, set_editor_options changing the "
+         "language mode or the character form - the STRING display() shows before and after, the composition (symbols, gaps, "
+         "selections), nth_conversion, the cursor and the saved cursors, the commit string are compared: equal, except that the "
+         "pending phonetic keys may be dropped, that closing a candidate list returns to the saved cursor, and that a buffer "
+         "already over the limit loses a leading part to the key's auto-commit - exactly what the theorems allow). The "
+         "crossing-phrase sessions put a non-default, differently reading alternative under every kind of mode change (seeded "
+         "change 'language toggle resets nth_conversion': concrete failing input). F01 (a key without a full-width form aborted) "
          "was repaired by a fix: commit.",
     note="Trusted: Lean kernel (standard axioms), the table translator, the read-only snapshot hook, harness + compiled model "
          "driver. The keyboard-layout matrices (Qwerty map_ascii) are exercised by the sweep, not modelled; layouts that "
